@@ -3,6 +3,7 @@ package emit
 
 import (
 	"github.com/llir/llvm/ir/types"
+	"strings"
 
 	"verif/h/am"
 )
@@ -22,7 +23,7 @@ func NewTypes(u *am.Universe) *Types {
 	ts := &Types{U: u, named: map[string]*types.StructType{}}
 	// scaffold first (recursive types), then fill.
 	for _, d := range u.Defs {
-		st := &types.StructType{TypeName: d.Name, Opaque: d.Opaque, Packed: d.Packed}
+		st := &types.StructType{TypeName: TypeName(d.Name), Opaque: d.Opaque, Packed: d.Packed}
 		ts.named[d.Name] = st
 	}
 	for _, d := range u.Defs {
@@ -102,4 +103,13 @@ func (ts *Types) Type(t *am.Type) types.Type {
 		return st
 	}
 	panic("emit: unknown type kind")
+}
+
+// TypeName is the library's TypeName for the identified struct type that LLVM calls name: a name made of
+// digits is kept with its quotes (`"42"`), which is how the library tells %"42" from the numbered type %42.
+func TypeName(name string) string {
+	if name != "" && strings.Trim(name, "0123456789") == "" {
+		return `"` + name + `"`
+	}
+	return name
 }
